@@ -21,7 +21,7 @@ def handlers : List (String × (Json → Json)) :=
    ("compose", Drv.compose), ("protect", Drv.protect), ("patchrt", Drv.patchrt),
    ("parse", Drv.parseKind), ("getters", Drv.gettersKind), ("apply", Drv.applyKind),
    ("sign", Drv.signKind), ("jws", Drv.jwsKind), ("jwk", Drv.jwkKind), ("jwkparse", Drv.jwkParseKind),
-   ("transform", Drv.transformKind), ("resolve", Drv.resolveKind), ("process", Drv.processKind), ("lifecycle", Drv.lifecycleKind), ("vdr", Drv.vdrKind), ("stress", Drv.stressKind), ("gtransform", Drv.gtransformKind)]
+   ("transform", Drv.transformKind), ("resolve", Drv.resolveKind), ("process", Drv.processKind), ("lifecycle", Drv.lifecycleKind), ("vdr", Drv.vdrKind), ("stress", Drv.stressKind), ("gtransform", Drv.gtransformKind), ("tinfo", Drv.tinfoKind)]
 
 def answer (line : String) : String :=
   let cs := line.toList
